@@ -33,7 +33,7 @@ STUBS = ["virtual-time event loop (symx/vloop.py) with a symbolic clock"]
 ASSUMPTIONS = ["z3's sequence theory for PrefixOf/Concat"]
 EXPECT_LABELS = {'all': ['source-prefix', 'source-origin', 'value-item', 'items-unchanged', 'retval',
                          'phase-delivery', 'reserved-name', 'internal-source']}
-EXPECT_NOTES = {'all': ['sent-before-stop', 'sent-after-stop', 'sent-at-stop-instant', 'sent-during-init',
+EXPECT_NOTES = {'all': ['start-refused-or-failed', 'sent-before-stop', 'sent-after-stop', 'sent-at-stop-instant', 'sent-during-init',
                         'sent-during-cleanup']}
 FLOORS = {'quick': {'paths': 40, 'checks': 150}, 'thorough': {'paths': 80, 'checks': 300}}
 
@@ -305,10 +305,92 @@ def scen_names(env):
     env.check('internal-source', len(sink) == 1 and sink[0][2]['source'] == 'sender')
 
 
+def scen_never_started(env, why):
+    """'before the start ... it raises EdzedInvalidState and delivers nothing' - also when a start was ATTEMPTED and
+    refused or failed at once: the eager-task check of run_forever() (documented RuntimeError), abort() before the
+    start, an empty ... no: a circuit whose finalisation fails (unknown block name)."""
+    circ = fresh_circuit()
+    d = Dest('d')
+    v = env.int('v')
+    if why == 'unresolved':
+        edzed.Not('n').connect('no_such_block')
+    res = {}
+
+    async def main():
+        loop = asyncio.get_running_loop()
+        if why == 'eager':
+            loop.set_task_factory(asyncio.eager_task_factory)
+        if why == 'abort-first':
+            circ.abort(OSError('early'))
+        try:
+            await circ.run_forever()
+            res['start'] = 'returned'
+        except BaseException as err:
+            res['start'] = err
+        if why == 'eager':
+            loop.set_task_factory(None)
+        for attempt in range(2):
+            try:
+                res[attempt] = edzed.ExtEvent(d, 'x').send(v)
+            except edzed.EdzedInvalidState as err:
+                res[attempt] = err
+            await asyncio.sleep(0)
+        res['ready'] = circ.is_ready()
+    vloop.run(main())
+    env.note('start-refused-or-failed')
+    env.check('start-failed', isinstance(res['start'], {'eager': RuntimeError, 'abort-first': OSError,
+                                                          'unresolved': Exception}[why]), info=lambda: res)
+    env.check('phase-delivery', all(isinstance(res[a], edzed.EdzedInvalidState) for a in range(2)) and d.got == []
+              and res['ready'] is False, info=lambda: (why, res, d.got))
+
+
+def scen_other_circuit(env, a_state):
+    """the circuit that must be running is the DESTINATION's: an ExtEvent created for a block of circuit A - which was
+    never started / has been stopped - while the application has meanwhile built and started a new circuit B
+    (edzed.reset_circuit()) must still raise EdzedInvalidState and deliver nothing"""
+    circ_a = fresh_circuit()
+    d = Dest('d')
+    ev = edzed.ExtEvent(d, 'x')
+    v = env.int('v')
+    res = {}
+
+    async def main():
+        if a_state == 'stopped':
+            ta = asyncio.create_task(circ_a.run_forever())
+            await circ_a.wait_init()
+            res['while-running'] = ev.send(v)
+            await circ_a.shutdown()
+        n_before = len(d.got)
+        circ_b = fresh_circuit()
+        d2 = Dest('d')
+        tb = asyncio.create_task(circ_b.run_forever())
+        await circ_b.wait_init()
+        try:
+            res['send'] = ev.send(v)
+        except edzed.EdzedInvalidState as err:
+            res['send'] = err
+        except Exception as err:
+            res['send'] = ('other exception', err)
+        res['delivered'] = len(d.got) - n_before
+        res['b-untouched'] = d2.got == [] and circ_b.error is None
+        await circ_b.shutdown()
+    vloop.run(main())
+    env.note('destination-in-another-circuit')
+    if a_state == 'stopped':
+        env.check('retval', res['while-running'] == ('handled', 1), info=lambda: res)
+    env.check('phase-delivery', isinstance(res['send'], edzed.EdzedInvalidState) and res['delivered'] == 0
+              and res['b-untouched'], info=lambda: (a_state, res, d.got))
+
+
 def shards(tier):
     out = [{'name': 'source sblock', 'scenario': 'scen_source', 'params': {'dest_kind': 'sblock'}},
            {'name': 'source input', 'scenario': 'scen_source', 'params': {'dest_kind': 'input'}},
            {'name': 'names', 'scenario': 'scen_names'}]
+    for a_state in ('never-started', 'stopped'):
+        out.append({'name': f'destination in another circuit ({a_state})', 'scenario': 'scen_other_circuit',
+                    'params': {'a_state': a_state}})
+    for why in ('eager', 'abort-first', 'unresolved'):
+        out.append({'name': f'never started: {why}', 'scenario': 'scen_never_started', 'params': {'why': why}})
     for cause in ('shutdown', 'abort', 'handler-error', 'ctrl-abort', 'ctrl-shutdown', 'calc-error'):
         out.append({'name': f'phase {cause}', 'scenario': 'scen_phase', 'params': {'cause': cause, 'two': False}})
         if tier == 'thorough':
